@@ -3,7 +3,7 @@ import math, os, re
 from .. import core, gen, spec, geo
 
 LEVEL = "proof"
-F11_KEY = "C01:lookup-miss:reference-model-misses-too"
+# (the polar-cap finding F11 was repaired by fix 24ee3fd: every miss is a violation)
 
 
 def tables_are_reference():
@@ -54,7 +54,7 @@ def run(run):
     coarse = [spec.encode(0, f, ()) for f in range(12)] + [spec.encode(1, T, ()) for T in range(60)]
     cr = core.impl_only(run, [f"cell_to_boundary {c} 1 6" for c in coarse])
     rings = [geo.parse_ring(a) for a in cr if geo.parse_ring(a)]
-    n = 700 if quick else 40000
+    n = run.n(700, 40000)
     pts = points(rng, n, rings)
     reqs, meta = [], []
     for kind, lon, lat in pts:
@@ -62,7 +62,7 @@ def run(run):
         reqs.append(f"lonlat_to_cell {geo.hx(lon)} {geo.hx(lat)} {r}")
         meta.append((kind, lon, lat, r))
     # second family: points derived from a random cell: its vertices / edge midpoints pulled slightly inside
-    cells = [gen.rand_cell(rng, rng.randint(0, 29)) for _ in range(150 if quick else 8000)]
+    cells = [gen.rand_cell(rng, rng.randint(0, 29)) for _ in range(run.n(150, 8000))]
     br = core.impl_only(run, [f"cell_to_boundary {c} 0 2" for c in cells])
     cl = core.impl_only(run, [f"cell_to_lonlat {c}" for c in cells])
     for c, b, ce in zip(cells, br, cl):
@@ -118,15 +118,12 @@ def run(run):
     for i, rel, br_ in misses:
         kind, lon, lat, r = meta[i]
         mt = model[i].split()
-        same_in_reference_model = (mt[:3] == impl[i].split()[:3]) and br_ == "-1"
         v = {"what": f"the returned cell does not contain the point (distance {rel:.3g} cell sizes outside; answer produced by the {'fallback' if br_ == '-1' else 'branch ' + br_}; point class {kind})",
              "request": reqs[i], "impl": impl[i], "model": model[i]}
-        if same_in_reference_model and ref_tables:
-            v["match_key"] = F11_KEY
         run.violations.append(v)
     # longitudes differing by a multiple of 360 give a cell containing the same point; every longitude at a pole gives a cell containing the pole
     wreq, wmeta = [], []
-    for _ in range(60 if quick else 3000):
+    for _ in range(run.n(60, 3000)):
         lon, lat, r = rng.uniform(-180, 180), rng.uniform(-89.9, 89.9), rng.randint(0, 29)
         k = rng.choice([-2, -1, 1, 2])
         wreq += [f"lonlat_to_cell {geo.hx(lon)} {geo.hx(lat)} {r}", f"lonlat_to_cell {geo.hx(lon + 360.0 * k)} {geo.hx(lat)} {r}"]
